@@ -122,6 +122,130 @@ func genStopProto() {
 	}
 	fmt.Fprintf(&sb, "/-- first statement of the restart loop of `runServiceWorker` (modules/worker.go); \"-\" if it is not a guarded return. -/\ndef serviceWorkerLoopHead : String := %q\n\n", head)
 
+	// ---- runServiceWorker: how the worker waits between two runs of its function. The only statement of the restart
+	// loop that may wait is a `select` that ends the `default` clause (the back-off) of the switch on the function's
+	// result; every case of it is emitted as "<comm>:<body>" with body "" (falls out of the select) or "return".
+	// Anything else that could wait anywhere in the loop (another call statement, a receive, a send, a nested loop, a
+	// go/defer statement) is an error: fail closed.
+	isHookW := func(st ast.Stmt) bool {
+		es, ok := st.(*ast.ExprStmt)
+		if !ok {
+			return false
+		}
+		ce, ok := es.X.(*ast.CallExpr)
+		return ok && strings.HasPrefix(exprString(fsetW, ce.Fun), "verif")
+	}
+	stmtW := func(st ast.Stmt) string {
+		var b strings.Builder
+		if err := printer.Fprint(&b, fsetW, st); err != nil {
+			die("print stmt: %v", err)
+		}
+		return strings.Join(strings.Fields(b.String()), " ")
+	}
+	// calls that are known not to wait
+	harmlessCall := func(ce *ast.CallExpr) bool {
+		fn := exprString(fsetW, ce.Fun)
+		switch {
+		case strings.HasPrefix(fn, "verif"), strings.HasPrefix(fn, "log."), strings.HasPrefix(fn, "errors.Is"),
+			fn == "time.Now", fn == "time.Duration", fn == "m.IsStopping", fn == "m.runWorker",
+			strings.HasPrefix(fn, "time.Now()."):
+			return true
+		}
+		return false
+	}
+	var backoffWait []string
+	var sawSelect bool
+	var checkNoWait func(n ast.Node, where string)
+	checkNoWait = func(n ast.Node, where string) {
+		ast.Inspect(n, func(c ast.Node) bool {
+			switch x := c.(type) {
+			case *ast.CallExpr:
+				if !harmlessCall(x) {
+					die("stopproto: runServiceWorker: %s: call %s may wait between two runs of the function (only the back-off select may)", where, exprString(fsetW, x))
+				}
+			case *ast.UnaryExpr:
+				if x.Op == token.ARROW {
+					die("stopproto: runServiceWorker: %s: receive %s outside the back-off select", where, exprString(fsetW, x))
+				}
+			case *ast.SendStmt, *ast.SelectStmt, *ast.ForStmt, *ast.RangeStmt, *ast.GoStmt, *ast.DeferStmt:
+				die("stopproto: runServiceWorker: %s: unexpected statement %s", where, stmtW(x.(ast.Stmt)))
+			}
+			return true
+		})
+	}
+	for _, st := range loop.Body.List {
+		if isHookW(st) {
+			continue
+		}
+		sw, ok := st.(*ast.SwitchStmt)
+		if !ok {
+			checkNoWait(st, "restart loop")
+			continue
+		}
+		if sw.Init != nil || sw.Tag != nil {
+			die("stopproto: runServiceWorker: unrecognised switch shape")
+		}
+		for _, cl := range sw.Body.List {
+			cc := cl.(*ast.CaseClause)
+			for _, e := range cc.List {
+				checkNoWait(e, "switch condition")
+			}
+			body := cc.Body
+			if cc.List == nil && len(body) > 0 { // default: the back-off
+				if sel, ok := body[len(body)-1].(*ast.SelectStmt); ok {
+					sawSelect = true
+					body = body[:len(body)-1]
+					for _, c := range sel.Body.List {
+						cm := c.(*ast.CommClause)
+						if cm.Comm == nil {
+							die("stopproto: runServiceWorker: the back-off select has a default case (does not wait)")
+						}
+						es, ok := cm.Comm.(*ast.ExprStmt)
+						if !ok {
+							die("stopproto: runServiceWorker: back-off select: unrecognised case %s", stmtW(cm.Comm))
+						}
+						ue, ok := es.X.(*ast.UnaryExpr)
+						if !ok || ue.Op != token.ARROW {
+							die("stopproto: runServiceWorker: back-off select: unrecognised case %s", stmtW(cm.Comm))
+						}
+						what := ""
+						var rest []ast.Stmt
+						for _, b := range cm.Body {
+							if !isHookW(b) {
+								rest = append(rest, b)
+							}
+						}
+						switch {
+						case len(rest) == 0:
+						case len(rest) == 1:
+							if r, ok := rest[0].(*ast.ReturnStmt); ok && len(r.Results) == 0 {
+								what = "return"
+							} else {
+								die("stopproto: runServiceWorker: back-off select: unrecognised case body %s", stmtW(rest[0]))
+							}
+						default:
+							die("stopproto: runServiceWorker: back-off select: case body with %d statements", len(rest))
+						}
+						backoffWait = append(backoffWait, exprString(fsetW, ue)+":"+what)
+					}
+				}
+			}
+			for _, b := range body {
+				checkNoWait(b, "switch clause")
+			}
+		}
+	}
+	if !sawSelect {
+		die("stopproto: runServiceWorker: the default clause of the result switch does not end with the back-off select")
+	}
+	{
+		q := make([]string, len(backoffWait))
+		for i, x := range backoffWait {
+			q[i] = fmt.Sprintf("%q", x)
+		}
+		fmt.Fprintf(&sb, "/-- cases of the back-off `select` of `runServiceWorker` (\"<comm>:<body>\", body \"\" or \"return\"); nothing else in its\n    restart loop waits (checked by the extractor, fail closed). -/\ndef backoffWait : List String :=\n  [%s]\n\n", strings.Join(q, ", "))
+	}
+
 	// ---- stopAllTasks / checkIfStopComplete operation order
 	fset2, f2 := parseFile("modules/modules.go")
 	seqOf := func(fn string, known map[string]string, ignore []string) []string {
